@@ -1,6 +1,8 @@
 package main
 
 import (
+	"go/constant"
+	"go/token"
 	"golang.org/x/tools/go/ssa"
 )
 
@@ -177,4 +179,24 @@ func (v *flatView) all(visit func(ssa.Instruction)) {
 	for _, fn := range v.Fns {
 		allInstrs(fn, visit)
 	}
+}
+
+// feasible: no guard of b (or of the calls that lead to it) is a parameter bound to the opposite boolean constant
+// in this view (`helper(args, true)`: the blocks under `!after` do not belong to this builtin).
+func (v *flatView) feasible(b *ssa.BasicBlock) bool {
+	for _, a := range v.guards(b) {
+		x := a.V
+		pol := a.Pol
+		if u, ok := x.(*ssa.UnOp); ok && u.Op == token.NOT {
+			x, pol = u.X, !pol
+		}
+		k, ok := v.res(x).(*ssa.Const)
+		if !ok || k.Value == nil || k.Value.Kind() != constant.Bool {
+			continue
+		}
+		if constant.BoolVal(k.Value) != pol {
+			return false
+		}
+	}
+	return true
 }
